@@ -337,7 +337,8 @@ pub fn configs(prop: &str, thorough: bool) -> Vec<(Cfg, Option<usize>)> {
                     // burns through an allowance re-open room under the cap exactly once
                     c.kinds = kinds(&["Mint", "Burn", "UpdateMinter", "Transfer", "Inc", "BurnFrom", "TransferFrom"]);
                     c.owners = vec![4];
-                    c.spenders = vec![0];
+                    // the holder itself also tries the *From calls on its own account (nobody can grant themselves)
+                    c.spenders = vec![0, 4];
                     c.grant_cap = Some(2);
                 }
                 if n == "cap=initial+2" {
